@@ -1111,7 +1111,7 @@ def run(ctx: Ctx) -> None:
         mc = dict(DEFAULTS)
         mc.update(kw)
         paths, res = scenario_paths(write_cfg("scr", invariants=[], **mc), timeout=ctx.pick(600, 3000),
-                                    per_init=ctx.pick(2, 6))
+                                    per_init=ctx.pick(2, 4))
         ctx.add_model(f"ClientTimeouts[scripted scenarios]({name})", res, exhaustive=True)
         scns = {json.dumps(p["scn"], sort_keys=True) for p in paths}
         nscn += len(scns)
@@ -1121,7 +1121,7 @@ def run(ctx: Ctx) -> None:
             has_cut = any(("partial" in l or '"data"' in l) for l in labels)
             variants = [(0, 0)]
             if has_cut:
-                variants += [(c, 0) for c in ctx.pick((3, 6), (1, 2, 3, 4, 5, 6))]
+                variants += [(c, 0) for c in ctx.pick((3, 6), (1, 3, 4, 6))]
             if mc["Body"] == "block":
                 variants += [(0, 1)]
             for (cut, bv) in variants:
@@ -1144,7 +1144,7 @@ def run(ctx: Ctx) -> None:
         mc = dict(DEFAULTS)
         mc.update(kw)
         behs, _ = simulate_behaviours("ClientTimeouts", write_cfg("sim", invariants=[], **mc),
-                                      num=ctx.pick(40, 1500), depth=40, seed=ctx.seed, timeout=600)
+                                      num=ctx.pick(40, 600), depth=40, seed=ctx.seed, timeout=600)
         for k, b in enumerate(behs):
             sims.append(replay_path(ctx, loop, path_from_behaviour(b), mc, cutsel=k % 7, body_variant=k % 2,
                                     src="tlc-sim"))
@@ -1154,7 +1154,7 @@ def run(ctx: Ctx) -> None:
         judge(ctx, sims[i:i + 1500], "tlc-sim")
     # ---- 4. random fault schedules
     batch: List[dict] = []
-    for _ in range(ctx.pick(600, 12000)):
+    for _ in range(ctx.pick(600, 8000)):
         batch.append(random_exec(ctx, loop, ctx.rng))
         if len(batch) >= 1500:
             judge(ctx, batch, "random")
